@@ -178,6 +178,10 @@ func (k Keeper) UpdateLPRewards(ctx sdk.Context) error {
 	if err != nil {
 		return err
 	}
+	// Only whole coins were moved to the module for LPs by the two collections above: crediting
+	// the untruncated amounts would promise fractions that were never funded
+	fundedUsdcAmountForLps := gasFeesForLpsDec.AmountOf(baseCurrency).TruncateDec().
+		Add(perpRevenue.AmountOf(baseCurrency).TruncateDec())
 	gasFeesForLpsDec = gasFeesForLpsDec.Add(perpRevenue...)
 	_, _, rewardsPerPool, err := k.CollectDEXRevenue(ctx)
 	if err != nil {
@@ -185,7 +189,7 @@ func (k Keeper) UpdateLPRewards(ctx sdk.Context) error {
 	}
 
 	// USDC amount in math.LegacyDec type
-	gasFeeUsdcAmountForLps := gasFeesForLpsDec.AmountOf(baseCurrency)
+	gasFeeUsdcAmountForLps := fundedUsdcAmountForLps
 
 	// Proxy TVL
 	// Multiplier on each liquidity pool
